@@ -23,7 +23,18 @@ package main
 //     (bounded wait) — never a verdict.
 //  4. Ungated bursts (2..8 simultaneous requests on one key / block / tag / body / parent /
 //     counter): responses and final state are recorded, TLC computes the serial outcomes
-//     for the candidate orders, Go compares.
+//     for the candidate orders, Go compares.  Conflicting annotation bursts (several writers of one
+//     position, whole-block replacement) are judged against ALL permutations; merge bursts also run
+//     on two open sibling versions at once.
+//  5. Templates added by the growth round (c11_grow.go): mcli (body mutation || ChangeLabelIndex),
+//     vox (voxel writes / split-supervoxel / merge / cleave / renumber over a region geometry; the
+//     matched serial outcome is also read through every labelmap endpoint, lmm.Compare), annsync
+//     (element edits || label sync handlers of a synced annotation), wc (write || commit || reader,
+//     property C02).  Work a request leaves to goroutines (block writers, the index goroutine of a
+//     voxel write, the sync handler of a subscriber) is scheduled like the request itself: the gate
+//     scheduler attributes goroutines to requests by creation or by site (gate.go).
+//  6. c11_annsync.go: behaviours of Annotation.tla replayed without idling between the operations.
+//  7. c11_race.go (thorough): data race reports of a race-detector build, as diagnostics only.
 
 import (
 	"encoding/base64"
@@ -31,6 +42,8 @@ import (
 	"encoding/json"
 	"fmt"
 	"math/rand"
+	"os"
+	"regexp"
 	"sort"
 	"strconv"
 	"strings"
@@ -144,6 +157,8 @@ type c11Case struct {
 	Key    c11Key
 	Progs  [][]string
 	Serial map[string]map[string]bool // subset "1,2" -> canonical finals
+	LM     map[string]json.RawMessage // canonical final -> full read set (templates with one, see LmObsOf)
+	Tuple  []int                      // catalog indices of the requests
 	Ends   []*c11End
 	// does the model of today's locking predict a non-serial outcome with all requests acknowledged?
 	ModelUnserial bool
@@ -183,10 +198,15 @@ func c11ParseModel(out string) (map[string]*c11Case, []*c11Case) {
 			Type   string          `json:"type"`
 			Key    json.RawMessage `json:"key"`
 			Progs  [][]string      `json:"progs"`
+			Tuple  []int           `json:"tuple"`
 			Serial []struct {
 				T      []int         `json:"t"`
 				Finals []interface{} `json:"finals"`
 			} `json:"serial"`
+			LM []struct {
+				F  interface{}     `json:"f"`
+				LM json.RawMessage `json:"lm"`
+			} `json:"lm"`
 			Sched        []int       `json:"sched"`
 			Accepted     []int       `json:"accepted"`
 			Final        interface{} `json:"final"`
@@ -219,12 +239,19 @@ func c11ParseModel(out string) (map[string]*c11Case, []*c11Case) {
 		}
 		if l.Type == "case" {
 			cs.Progs = l.Progs
+			cs.Tuple = l.Tuple
 			for _, s := range l.Serial {
 				m := map[string]bool{}
 				for _, f := range s.Finals {
 					m[c11Canon(f)] = true
 				}
 				cs.Serial[subsetKey(s.T)] = m
+			}
+			for _, x := range l.LM {
+				if cs.LM == nil {
+					cs.LM = map[string]json.RawMessage{}
+				}
+				cs.LM[c11Canon(x.F)] = x.LM
 			}
 			return
 		}
@@ -256,7 +283,37 @@ func c11Gen(tpls []string, only string, bursts string) []byte {
 	return []byte(fmt.Sprintf("---- MODULE ConcurrencyGen ----\nEXTENDS Concurrency\nGenTpls == {%s}\nGenOnly == %s\nGenBursts == %s\n====\n", strings.Join(q, ", "), only, bursts))
 }
 
-var c11Templates = []string{"kv", "ann", "lm", "ver", "nj", "nl", "mut", "cli"}
+var c11Templates = []string{"kv", "ann", "lm", "ver", "nj", "nl", "mut", "cli", "mcli", "vox", "annsync"}
+
+// template wc (write || commit || reader, 3 requests) is explored by its own TLC runs
+var c11WcOn = true
+
+// the templates of the first round: 3-request exploration and ungated bursts are generated for these
+var c11BaseTemplates = []string{"kv", "ann", "lm", "ver", "nj", "nl", "mut", "cli"}
+
+func init() {
+	// development aid: VERIF_C11_TPLS=a,b restricts the templates (never set by a registered command)
+	if v := os.Getenv("VERIF_C11_TPLS"); v != "" {
+		c11Templates = nil
+		c11WcOn = false
+		for _, t := range strings.Split(v, ",") {
+			if t == "wc" {
+				c11WcOn = true
+			} else {
+				c11Templates = append(c11Templates, t)
+			}
+		}
+		var base []string
+		for _, t := range c11Templates {
+			for _, b := range c11BaseTemplates {
+				if t == b {
+					base = append(base, t)
+				}
+			}
+		}
+		c11BaseTemplates = base
+	}
+}
 
 // known findings per template (id in known_findings.json)
 var c11Known = map[string]string{
@@ -278,6 +335,7 @@ type c11Env struct {
 	base  uint64 // mutation id base (mut)
 	resps []node.Resp
 	cs    *c11Key
+	grow  *c11GrowEnv // templates of c11_grow.go
 }
 
 func c11Do(n *node.Node, method, url string, body []byte, what string) node.Resp {
@@ -319,6 +377,10 @@ func c11Ingest(n *node.Node, root, inst string, nsv int) {
 		c11Do(n, "POST", fmt.Sprintf("/api/node/%s/%s/raw/0_1_2/%d_%d_%d/%d_0_0", root, inst, c11LmBS, c11LmBS, c11LmBS, (sv-1)*c11LmBS), vol, "ingest supervoxel")
 	}
 	must(n.Idle(), "idle after ingest")
+	// the body indices of ingested blocks are written by goroutines no idle predicate covers
+	for sv := 1; sv <= nsv; sv++ {
+		c11WaitIndex(n, root, inst, sv)
+	}
 }
 
 // abstract position -> voxel (annotation blocks are 64^3)
@@ -415,7 +477,9 @@ func c11Setup(n *node.Node, repo *string, key *c11Key, nsv, nlab int) *c11Env {
 		c11NewInstance(n, env.root, "labelmap", env.inst, map[string]string{"BlockSize": fmt.Sprintf("%d,%d,%d", c11LmBS, c11LmBS, c11LmBS)})
 		c11Ingest(n, env.root, env.inst, 4)
 	default:
-		infra("unknown template %q", key.Tpl)
+		if !c11GrowSetup(env, key, k) {
+			infra("unknown template %q", key.Tpl)
+		}
 	}
 	return env
 }
@@ -458,6 +522,15 @@ func c11Request(env *c11Env, r c11Rq) node.Req {
 		case "move":
 			p, q := c11Point(r.num("from")), c11Point(r.num("to"))
 			return env.n.MkReq("POST", fmt.Sprintf("%s/move/%d_%d_%d/%d_%d_%d", base, p[0], p[1], p[2], q[0], q[1], q[2]), nil)
+		case "blocks":
+			var es []c11Elem
+			raw, _ := r["elems"].([]interface{})
+			for _, x := range raw {
+				m := c11Rq(x.(map[string]interface{}))
+				es = append(es, c11MkElem(m.num("pos"), m.ints("tags"), who))
+			}
+			b, _ := json.Marshal(map[string][]c11Elem{fmt.Sprintf("%d,0,0", r.num("b")-1): es})
+			return env.n.MkReq("POST", base+"/blocks", b)
 		}
 	case "lm":
 		if r.str("k") == "merge" {
@@ -469,6 +542,9 @@ func c11Request(env *c11Env, r c11Rq) node.Req {
 	case "ver":
 		if r.str("k") == "newversion" {
 			return env.n.MkReq("POST", "/api/node/"+env.root+"/newversion", []byte(`{}`))
+		}
+		if r.str("k") == "log" && r["newdata"] == true {
+			return env.n.MkReq("POST", "/api/repo/"+env.root+"/instance", []byte(fmt.Sprintf(`{"typename":"keyvalue","dataname":"burst%d"}`, who)))
 		}
 		if r.str("k") == "log" {
 			return env.n.MkReq("POST", "/api/repo/"+env.root+"/log", []byte(fmt.Sprintf(`{"log":["c11 %d"]}`, who)))
@@ -495,6 +571,9 @@ func c11Request(env *c11Env, r c11Rq) node.Req {
 		// not an HTTP request: one concurrent caller of labelmap.ChangeLabelIndex (node call conc.changeLabelIndex)
 		b, _ := json.Marshal(map[string]interface{}{"block": c11CliBlocks[r.str("b")], "sv": 4, "n": r.num("n")})
 		return node.Req{ID: uint64(who), Op: "cli", Method: "CALL", URL: fmt.Sprintf("labelmap.ChangeLabelIndex(%s, label 4, block %s, sv 4, %+d voxels)", env.inst, r.str("b"), r.num("n")), Args: b}
+	}
+	if rq, ok := c11GrowRequest(env, r); ok {
+		return rq
 	}
 	infra("no request mapping for %s/%v", env.cs.Tpl, r)
 	return node.Req{}
@@ -647,6 +726,16 @@ func c11Observe(env *c11Env) interface{} {
 		for b, c := range cnt {
 			kids = append(kids, obsM{"b": b, "n": c})
 		}
+		// an acknowledged new-instance request (bursts) must have left its instance in the repo
+		var insts struct{ DataInstances map[string]json.RawMessage }
+		json.Unmarshal(r.Bytes(), &insts)
+		for i, rq := range env.cs.Rq {
+			if rq["newdata"] == true && i < len(env.resps) && env.resps[i].Status == 200 {
+				if _, ok := insts.DataInstances[fmt.Sprintf("burst%d", rq.num("who"))]; !ok {
+					kids = append(kids, obsM{"b": fmt.Sprintf("acknowledged instance burst%d is missing", rq.num("who")), "n": 0})
+				}
+			}
+		}
 		return obsM{"kids": kids}
 	case "nj":
 		read := func(uuid string) interface{} {
@@ -736,6 +825,9 @@ func c11Observe(env *c11Env) interface{} {
 		d := c11Dedup(rets)
 		return obsM{"cur": int64(c11MutationID(n, env.root)) - int64(env.base), "rets": d, "nret": len(d)}
 	}
+	if o, ok := c11GrowObserve(env); ok {
+		return o
+	}
 	infra("no observer for %s", env.cs.Tpl)
 	return nil
 }
@@ -759,7 +851,9 @@ func c11MaxLabel(env *c11Env) int {
 	if r.Status != 200 {
 		infra("GET maxlabel: %d %s", r.Status, r.Bytes())
 	}
-	var o struct{ MaxLabel int `json:"maxlabel"` }
+	var o struct {
+		MaxLabel int `json:"maxlabel"`
+	}
 	must(json.Unmarshal(r.Bytes(), &o), "maxlabel json")
 	return o.MaxLabel
 }
@@ -788,6 +882,9 @@ type c11Worker struct {
 	n      *node.Node
 	repo   string
 	ncases int
+	// race diagnostics (c11_race.go): an explicit server binary; every node ever used (their stderr is read at the end)
+	bin      string
+	allNodes []*node.Node
 }
 
 func (w *c11Worker) node() *node.Node {
@@ -795,7 +892,12 @@ func (w *c11Worker) node() *node.Node {
 		if w.n != nil {
 			w.c.DropNode(w.n)
 		}
-		w.n = w.c.StartNode(node.Config{})
+		if w.bin != "" {
+			w.n = startNodeBin(w.c, w.bin, node.Config{})
+			w.allNodes = append(w.allNodes, w.n)
+		} else {
+			w.n = w.c.StartNode(node.Config{})
+		}
 		w.repo = ""
 		w.ncases = 0
 	}
@@ -811,9 +913,9 @@ func (w *c11Worker) close() {
 }
 
 type c11Stats struct {
-	replays, followed, lockBlocked, allAck, mixed, mixedUnexplained, nonSerial, knownHits int64
-	locksAt                                                                               sync.Map // site -> *int64
-	perTpl                                                                                sync.Map // tpl -> *int64
+	replays, followed, lockBlocked, allAck, mixed, mixedUnexplained, nonSerial, knownHits, deep int64
+	locksAt                                                                                     sync.Map // site -> *int64
+	perTpl                                                                                      sync.Map // tpl -> *int64
 }
 
 func (s *c11Stats) bump(m *sync.Map, k string) {
@@ -878,8 +980,8 @@ func c11Judge(run *ev.Run, st *c11Stats, cs *c11Case, e *c11End, env *c11Env, re
 			rp.Schedule = e.Sched
 			rp.ModelSays = fmt.Sprintf("final %s, serializable=%v", e.Final, e.Serializable)
 		}
-		id, known := c11Known[cs.Key.Tpl]
-		if known && run.KnownActive(id) && cs.ModelUnserial {
+		id, known := c11KnownFor(cs)
+		if known && run.KnownActive(id) && cs.ModelUnserial && c11KnownOutcome(cs, got) {
 			atomic.AddInt64(&st.knownHits, 1)
 			run.ReportKnown(id)
 			if atomic.LoadInt64(&st.knownHits) <= 3 {
@@ -894,6 +996,13 @@ func c11Judge(run *ev.Run, st *c11Stats, cs *c11Case, e *c11End, env *c11Env, re
 		if !cs.Serial[subsetKey(procs)][got] {
 			atomic.AddInt64(&st.nonSerial, 1)
 			report("all requests were acknowledged but the final state is not the result of any sequential order of them")
+		} else if lmObs, ok := cs.LM[got]; ok {
+			// the state is a serial outcome: every read endpoint must agree with it as well
+			atomic.AddInt64(&st.deep, 1)
+			if diffs := c11DeepCompare(env, lmObs); len(diffs) > 0 {
+				atomic.AddInt64(&st.nonSerial, 1)
+				report("the stored voxels, indices and mapping are those of a sequential order, but other reads of the final state disagree with it: " + strings.Join(diffs, "; "))
+			}
 		}
 		return
 	}
@@ -932,6 +1041,9 @@ func decodeB64(s string) ([]byte, error) {
 // sites) or ungated (sites == nil, sched == nil).
 func c11Run(env *c11Env, reqs []node.Req, sched []int, sites []string, waitMS int, timeout time.Duration) (node.Resp, error) {
 	n := env.n
+	if c11IsMix(env.cs.Tpl) {
+		return c11RunMix(env, reqs, sched, sites, waitMS)
+	}
 	if env.cs.Tpl == "cli" {
 		args := map[string]interface{}{"uuid": env.root, "name": env.inst, "label": 4, "wait_ms": waitMS}
 		var deltas []json.RawMessage
@@ -970,7 +1082,7 @@ func c11Run(env *c11Env, reqs []node.Req, sched []int, sites []string, waitMS in
 	for _, p := range sched {
 		ids = append(ids, reqs[p-1].ID)
 	}
-	return n.ParGated(reqs, ids, sites, waitMS)
+	return n.ParGated(reqs, ids, append(append([]string(nil), sites...), c11GrowDirectives(env, reqs)...), waitMS)
 }
 
 func encodeB64(b []byte) string { return base64.StdEncoding.EncodeToString(b) }
@@ -986,7 +1098,13 @@ func (w *c11Worker) replayEnd(run *ev.Run, st *c11Stats, cs *c11Case, e *c11End,
 	}
 	sched := e.Sched
 	resp, err := c11Run(env, reqs, sched, cs.sites(), waitMS, 0)
-	must(err, "gated par")
+	if err != nil {
+		var lines []string
+		for _, rq := range reqs {
+			lines = append(lines, trunc(httpLine(rq), 160))
+		}
+		infra("gated par: %v (template %s, schedule %v, requests %v); goroutines of the server: %s", err, cs.Key.Tpl, sched, lines, c11Stacks(n))
+	}
 	if len(resp.Resps) != len(reqs) {
 		infra("gated par returned %d responses for %d requests: %s", len(resp.Resps), len(reqs), resp.Err)
 	}
@@ -1042,7 +1160,15 @@ type c11Burst struct {
 	Rets     []interface{} // per request: the identifiers it returned (abstract), nil if none
 	HTTP     []string
 	Outs     map[string]bool // canonical {final, acc, rets} of every candidate order (from TLC)
+	// two open sibling versions (gap C11-7): the requests of Pair run in the same concurrent batch against a
+	// sibling version of the same instance; each of the two bursts is judged on its own version
+	Pair *c11Burst
+	// TwoVer: the burst ran on a child version; the label counter (GET maxlabel), which dvid keeps per
+	// version and which these merge-only bursts do not change, is left out of the comparison
+	TwoVer bool
 }
+
+var reNxt = regexp.MustCompile(`,"nxt":\d+`)
 
 func tlaIntSet(a []int) string {
 	var s []string
@@ -1094,6 +1220,62 @@ func c11GenBurst(rng *rand.Rand, tpl string) *c11Burst {
 					fmt.Sprintf(`[k |-> "post", elems |-> {[pos |-> %d, tags |-> %s]}, who |-> WHO]`, pos, tlaIntSet(tags)))
 			}
 		}
+	case "lm2v":
+		// merges only (no label allocation, which is repo-wide): the same kind of burst on two sibling versions
+		b.Tpl = "lm"
+		n := 2 + rng.Intn(3)
+		b.NSV = 3 + n
+		if b.NSV < 5 {
+			b.NSV = 5
+		}
+		b.NLab = b.NSV
+		b.Pair = &c11Burst{Tpl: "lm", Pre: 1, NSV: b.NSV, NLab: b.NLab, TwoVer: true}
+		b.TwoVer = true
+		for i := 0; i < n; i++ {
+			add(c11Rq{"k": "merge", "t": 1, "m": []int{4 + i}}, fmt.Sprintf(`[k |-> "merge", t |-> 1, m |-> {%d}, who |-> WHO]`, 4+i))
+		}
+		m := 2 + rng.Intn(n-1)
+		for i := 0; i < m; i++ {
+			// the sibling merges into body 4 instead
+			r := c11Rq{"k": "merge", "t": 4, "m": []int{5 + i}, "who": i + 1}
+			if 5+i > b.NSV {
+				break
+			}
+			b.Pair.Rq = append(b.Pair.Rq, c11Rq(c11Generic(r).(map[string]interface{})))
+			b.Pair.TLA = append(b.Pair.TLA, fmt.Sprintf(`[k |-> "merge", t |-> 4, m |-> {%d}, who |-> %d]`, 5+i, i+1))
+		}
+	case "annc":
+		// conflicting requests (gap C11-8): several writers post an element at the SAME position (the last one
+		// wins, block and tag lists must agree with it), replace the whole block, or delete / move one of
+		// the seeded elements; every request is accepted in every order, the outcome depends on the order,
+		// and TLC evaluates all permutations
+		b.Tpl = "ann"
+		b.AllOrd = true
+		n := 4 + rng.Intn(3)
+		usedOld := map[int]bool{}
+		pool := []int{3, 6, 108}
+		for i := 0; i < n; i++ {
+			old := []int{1, 2, 104}[rng.Intn(3)]
+			switch c := rng.Intn(8); {
+			case c == 0 && !usedOld[old]:
+				usedOld[old] = true
+				add(c11Rq{"k": "del", "pos": old}, fmt.Sprintf(`[k |-> "del", pos |-> %d, who |-> WHO]`, old))
+			case c == 1 && !usedOld[old]:
+				usedOld[old] = true
+				to := 20 + i + 100*rng.Intn(2)
+				add(c11Rq{"k": "move", "from": old, "to": to}, fmt.Sprintf(`[k |-> "move", from |-> %d, to |-> %d, who |-> WHO]`, old, to))
+			case c == 2 && !usedOld[1] && !usedOld[2]:
+				// (not together with a delete / move of an element of block 1: those are refused when the block was replaced first)
+				usedOld[1], usedOld[2] = true, true
+				add(c11Rq{"k": "blocks", "b": 1, "elems": []interface{}{map[string]interface{}{"pos": 9, "tags": []int{}}}},
+					`[k |-> "blocks", b |-> 1, elems |-> {[pos |-> 9, tags |-> {}]}, who |-> WHO]`)
+			default:
+				pos := pool[rng.Intn(len(pool))]
+				tags := [][]int{{1}, {2}, {1, 2}, {}}[rng.Intn(4)]
+				add(c11Rq{"k": "post", "elems": []interface{}{map[string]interface{}{"pos": pos, "tags": tags}}},
+					fmt.Sprintf(`[k |-> "post", elems |-> {[pos |-> %d, tags |-> %s]}, who |-> WHO]`, pos, tlaIntSet(tags)))
+			}
+		}
 	case "lm":
 		n := 2 + rng.Intn(5)
 		ncleave := rng.Intn(3)
@@ -1117,10 +1299,14 @@ func c11GenBurst(rng *rand.Rand, tpl string) *c11Burst {
 		n := 2 + rng.Intn(4)
 		b.AllOrd = true
 		for i := 0; i < n; i++ {
-			if c := rng.Intn(4); c == 0 {
+			if c := rng.Intn(5); c == 0 {
 				add(c11Rq{"k": "newversion", "b": ""}, `[k |-> "newversion", b |-> "", who |-> WHO]`)
 			} else if c == 1 {
 				add(c11Rq{"k": "log", "b": ""}, `[k |-> "log", b |-> "", who |-> WHO]`)
+			} else if c == 4 {
+				// gap C11-10: a new data instance - like POST log another writer of the repo metadata that has
+				// no effect on the children (the specification's "log" request); the instance must exist afterwards
+				add(c11Rq{"k": "log", "b": "", "newdata": true}, `[k |-> "log", b |-> "", who |-> WHO]`)
 			} else {
 				br := fmt.Sprintf("b%d", 1+rng.Intn(n))
 				add(c11Rq{"k": "branch", "b": br}, fmt.Sprintf(`[k |-> "branch", b |-> %q, who |-> WHO]`, br))
@@ -1188,11 +1374,41 @@ func (w *c11Worker) runBurst(b *c11Burst) {
 	n := w.node()
 	key := b.key()
 	env := c11Setup(n, &w.repo, key, b.NSV, b.NLab)
+	var env2 *c11Env
+	if b.Pair != nil {
+		// the instance state becomes a committed version with two open children; the worker's repo is used up
+		c11Do(n, "POST", "/api/node/"+env.root+"/commit", []byte(`{"note":"two versions"}`), "commit")
+		child := func(name string) string {
+			r := c11Do(n, "POST", "/api/node/"+env.root+"/branch", []byte(fmt.Sprintf(`{"branch":%q}`, name)), "branch")
+			var o struct{ Child string }
+			json.Unmarshal(r.Bytes(), &o)
+			if o.Child == "" {
+				infra("branch: no child in %s", r.Bytes())
+			}
+			return o.Child
+		}
+		v1, v2 := child("v1"), child("v2")
+		w.repo = ""
+		e2 := *env
+		env2 = &e2
+		env2.root = v2
+		k2 := *b.Pair.key()
+		env2.cs = &k2
+		env.root = v1
+	}
 	var reqs []node.Req
 	for _, r := range b.Rq {
 		rq := c11Request(env, r)
 		reqs = append(reqs, rq)
 		b.HTTP = append(b.HTTP, httpLine(rq))
+	}
+	n1 := len(reqs)
+	if b.Pair != nil {
+		for _, r := range b.Pair.Rq {
+			rq := c11Request(env2, r)
+			reqs = append(reqs, rq)
+			b.Pair.HTTP = append(b.Pair.HTTP, httpLine(rq))
+		}
 	}
 	resp, err := c11Run(env, reqs, nil, nil, 0, 40*time.Second)
 	if err != nil {
@@ -1202,6 +1418,21 @@ func (w *c11Worker) runBurst(b *c11Burst) {
 		infra("par returned %d responses for %d requests", len(resp.Resps), len(reqs))
 	}
 	must(n.Idle(), "idle")
+	if b.Pair != nil {
+		p := b.Pair
+		env2.resps = resp.Resps[n1:]
+		p.Rets = make([]interface{}, len(p.Rq))
+		for _, r := range env2.resps {
+			p.Statuses = append(p.Statuses, r.Status)
+			p.Bodies = append(p.Bodies, trunc(string(r.Bytes()), 200))
+		}
+		for q := 1; q <= len(p.Rq); q++ {
+			p.Order = append(p.Order, q)
+		}
+		p.Obs = c11Generic(c11Observe(env2))
+		resp.Resps = resp.Resps[:n1]
+		reqs = reqs[:n1]
+	}
 	env.resps = resp.Resps
 	type keyed struct {
 		p   int
@@ -1286,20 +1517,46 @@ func checkC11(c *Ctx) int {
 	run := ev.NewRun("C11", c.Tier, "model_checking")
 	st := &c11Stats{}
 	t0 := time.Now()
+	if part := os.Getenv("VERIF_C11_PART"); part != "" {
+		// development aid (never set by a registered command): run one added part alone
+		switch part {
+		case "annsync":
+			run.Set("annotation_sync_no_idle_replay", c11AnnSyncNoIdle(c, run, c11AnnPrepare(c)))
+		case "race":
+			run.Set("race_detector", c11RaceBursts(c, run))
+		}
+		run.Set("states", 0)
+		run.Set("transitions", 0)
+		run.Set("traces_validated_against_impl", 0)
+		run.Set("rule", "partial development run")
+		fmt.Printf("C11 (part %s): violations=%d known=%v\n", part, run.Violations(), run.KnownSeen())
+		return run.Finish()
+	}
+
+	// (the behaviours for the annotation no-idle replay of step 5 are simulated by TLC in the background)
+	var annPrep *c11AnnPrep
+	if os.Getenv("VERIF_C11_TPLS") == "" {
+		annPrep = c11AnnPrepare(c)
+	}
 
 	// 1. intended locking, all interleavings (2 processes; thorough: also 3), in the background
 	type mcRes struct {
-		n int
-		r *tlc.Result
+		n    int
+		r    *tlc.Result
+		note string
 	}
-	mcCh := make(chan mcRes, 4)
+	mcCh := make(chan mcRes, 8)
 	var mcWG sync.WaitGroup
 	intended := func(nproc, workers int, timeout time.Duration) {
 		defer mcWG.Done()
+		tpls := c11Templates
+		if nproc > 2 {
+			tpls = c11BaseTemplates
+		}
 		r := c.MustModelCheck(tlc.Opts{Module: "ConcurrencyGen", Config: "c11_intended.cfg", Workers: workers, Timeout: timeout,
-			Files: map[string][]byte{"ConcurrencyGen.tla": c11Gen(c11Templates, "", ""),
-				"c11_intended.cfg": []byte(c11Cfg(nproc, "intended", false, false, "Inv_C11_Serializable Inv_C12_Unique Inv_LocksReleased"))}})
-		mcCh <- mcRes{nproc, r}
+			Files: map[string][]byte{"ConcurrencyGen.tla": c11Gen(tpls, "", ""),
+				"c11_intended.cfg": []byte(c11Cfg(nproc, "intended", false, false, "Inv_C11_Serializable Inv_C12_Unique Inv_LocksReleased Inv_C11_IndexMatchesVoxels"))}})
+		mcCh <- mcRes{n: nproc, r: r}
 	}
 	var mcErr atomic.Value
 	guard := func(f func()) {
@@ -1313,15 +1570,28 @@ func checkC11(c *Ctx) int {
 	mcWG.Add(1)
 	go guard(func() { intended(2, 2, 5*time.Minute) })
 	// today's locking, all interleavings (not only those the gates can force)
+	// (template vox: while the known findings about the index changes of voxel writes are open, today's
+	// locking is checked below on exactly the request tuples for which the gate-grain model predicts no
+	// lost update)
+	voxKnown := run.KnownActive(c11KnownVoxOrder) || run.KnownActive(c11KnownVoxStale)
+	var fineTpls []string
+	for _, t := range c11Templates {
+		if t != "vox" || !voxKnown {
+			fineTpls = append(fineTpls, t)
+		}
+	}
 	mcWG.Add(1)
 	go guard(func() {
 		defer mcWG.Done()
+		if len(fineTpls) == 0 {
+			return
+		}
 		r := c.MustModelCheck(tlc.Opts{Module: "ConcurrencyGen", Config: "c11_codefine.cfg", Workers: 2, Timeout: 5 * time.Minute,
-			Files: map[string][]byte{"ConcurrencyGen.tla": c11Gen(c11Templates, "", ""),
-				"c11_codefine.cfg": []byte(c11Cfg(2, "code", false, false, "Inv_C11_Serializable Inv_C12_Unique Inv_LocksReleased"))}})
-		mcCh <- mcRes{-2, r}
+			Files: map[string][]byte{"ConcurrencyGen.tla": c11Gen(fineTpls, "", ""),
+				"c11_codefine.cfg": []byte(c11Cfg(2, "code", false, false, "Inv_C11_Serializable Inv_C12_Unique Inv_LocksReleased Inv_C11_IndexMatchesVoxels"))}})
+		mcCh <- mcRes{n: -2, r: r}
 	})
-	if c.thorough() {
+	if c.thorough() && len(c11BaseTemplates) > 0 {
 		mcWG.Add(1)
 		go guard(func() { intended(3, 6, 14*time.Minute) })
 	}
@@ -1337,12 +1607,49 @@ func checkC11(c *Ctx) int {
 		statesCode, transCode = r.Distinct, r.Generated
 	}
 	n2 := len(cases)
-	if c.thorough() {
+	if c11WcOn {
+		// write || commit || reader: the three request triples of template wc, every gate-grain schedule
+		only := `{<<"wc", <<1, 4, 5>>>>, <<"wc", <<2, 4, 5>>>>, <<"wc", <<3, 4, 5>>>>}`
+		r := c.MustModelCheck(tlc.Opts{Module: "ConcurrencyGen", Config: "c11_wc.cfg", Workers: 2, Timeout: 5 * time.Minute,
+			Files: map[string][]byte{"ConcurrencyGen.tla": c11Gen([]string{"wc"}, only, ""),
+				"c11_wc.cfg": []byte(c11Cfg(3, "code", true, true, "EmitInv Inv_LocksReleased"))}})
+		_, wcCases := c11ParseModel(r.Output)
+		cases = append(cases, wcCases...)
+		statesCode += r.Distinct
+		transCode += r.Generated
+		mcWG.Add(1)
+		go guard(func() {
+			defer mcWG.Done()
+			r := c.MustModelCheck(tlc.Opts{Module: "ConcurrencyGen", Config: "c11_wcint.cfg", Workers: 2, Timeout: 5 * time.Minute,
+				Files: map[string][]byte{"ConcurrencyGen.tla": c11Gen([]string{"wc"}, only, ""),
+					"c11_wcint.cfg": []byte(c11Cfg(3, "intended", false, false, "Inv_C11_Serializable Inv_LocksReleased Inv_C02_CommittedFrozen"))}})
+			mcCh <- mcRes{n: 3, r: r, note: "template wc (write || commit || reader), intended locking (a mutation holds the version open until everything it started is applied; commit takes the same lock), every interleaving of the 3 request triples: %d distinct states, depth %d, Inv_C11_Serializable/Inv_C02_CommittedFrozen/locks released/no deadlock hold"}
+		})
+	}
+	if voxKnown {
+		var only []string
+		for _, cs := range cases {
+			if cs.Key.Tpl == "vox" && !cs.ModelUnserial && len(cs.Tuple) == 2 {
+				only = append(only, fmt.Sprintf("<<\"vox\", <<%d, %d>>>>", cs.Tuple[0], cs.Tuple[1]))
+			}
+		}
+		if len(only) > 0 {
+			mcWG.Add(1)
+			go guard(func() {
+				defer mcWG.Done()
+				r := c.MustModelCheck(tlc.Opts{Module: "ConcurrencyGen", Config: "c11_codefinevox.cfg", Workers: 2, Timeout: 5 * time.Minute,
+					Files: map[string][]byte{"ConcurrencyGen.tla": c11Gen([]string{"vox"}, "{"+strings.Join(only, ", ")+"}", ""),
+						"c11_codefinevox.cfg": []byte(c11Cfg(2, "code", false, false, "Inv_C11_Serializable Inv_LocksReleased Inv_C11_IndexMatchesVoxels"))}})
+				mcCh <- mcRes{n: -2, r: r}
+			})
+		}
+	}
+	if c.thorough() && len(c11BaseTemplates) > 0 {
 		// 3 processes: a seeded sample of request triples per template, every gate-grain schedule of each
-		catalog := map[string]int{"kv": 2, "ann": 8, "lm": 7, "ver": 3, "nj": 4, "nl": 2, "mut": 1, "cli": 3}
+		catalog := map[string]int{"kv": 2, "ann": 9, "lm": 7, "ver": 3, "nj": 4, "nl": 2, "mut": 1, "cli": 3}
 		perTpl := map[string]int{"kv": 4, "ann": 14, "lm": 14, "ver": 8, "nj": 8, "nl": 4, "mut": 1, "cli": 6}
 		var only []string
-		for _, t := range c11Templates {
+		for _, t := range c11BaseTemplates {
 			var all [][3]int
 			for a := 1; a <= catalog[t]; a++ {
 				for b := a; b <= catalog[t]; b++ {
@@ -1386,6 +1693,29 @@ func checkC11(c *Ctx) int {
 			sort.SliceStable(ends, func(i, j int) bool { return !ends[i].Serializable && ends[j].Serializable })
 			ends = ends[:40]
 		}
+		// growth templates, quick tier: a seeded sample of the schedules of every tuple (all of them in the
+		// thorough tier), non-serial predictions first
+		if capQ := c11QuickCap[cs.Key.Tpl]; capQ > 0 && !c.thorough() && len(ends) > capQ {
+			// non-serial predictions first, then the schedules that switch between the requests most often
+			// (the attack schedules: every request parked inside its critical section), ties by seed
+			alt := func(e *c11End) int {
+				n := 0
+				for i := 1; i < len(e.Sched); i++ {
+					if e.Sched[i] != e.Sched[i-1] {
+						n++
+					}
+				}
+				return n
+			}
+			c.Rng.Shuffle(len(ends), func(i, j int) { ends[i], ends[j] = ends[j], ends[i] })
+			sort.SliceStable(ends, func(i, j int) bool {
+				if ends[i].Serializable != ends[j].Serializable {
+					return !ends[i].Serializable
+				}
+				return alt(ends[i]) > alt(ends[j])
+			})
+			ends = ends[:capQ]
+		}
 		for _, e := range ends {
 			items = append(items, item{cs, e})
 		}
@@ -1413,12 +1743,28 @@ func checkC11(c *Ctx) int {
 	// 4. ungated bursts
 	nb := c.pick(42, 700)
 	var bursts []*c11Burst
-	for i := 0; i < nb; i++ {
-		bursts = append(bursts, c11GenBurst(c.Rng, c11Templates[i%len(c11Templates)]))
+	burstKinds := append([]string(nil), c11BaseTemplates...)
+	for _, t := range c11BaseTemplates {
+		if t == "ann" {
+			burstKinds = append(burstKinds, "annc", "annc")
+		}
+		if t == "lm" {
+			burstKinds = append(burstKinds, "lm2v")
+		}
+	}
+	for i := 0; i < nb && len(burstKinds) > 0; i++ {
+		bursts = append(bursts, c11GenBurst(c.Rng, burstKinds[i%len(burstKinds)]))
 	}
 	parallel(len(bursts), workers, func(w, i int) { ws[w].runBurst(bursts[i]) })
 	for _, w := range ws {
 		w.close()
+	}
+	twoVersionBursts := 0
+	for _, b := range bursts[:len(bursts):len(bursts)] {
+		if b.Pair != nil {
+			bursts = append(bursts, b.Pair)
+			twoVersionBursts++
+		}
 	}
 	var sb strings.Builder
 	sb.WriteString("<<\n")
@@ -1464,6 +1810,14 @@ func checkC11(c *Ctx) int {
 			}
 		}
 		got := b.outcome()
+		if b.TwoVer {
+			got = reNxt.ReplaceAllString(got, "")
+			outs := map[string]bool{}
+			for o := range b.Outs {
+				outs[reNxt.ReplaceAllString(o, "")] = true
+			}
+			b.Outs = outs
+		}
 		if b.Outs[got] {
 			if all {
 				burstAllAck++
@@ -1497,6 +1851,18 @@ func checkC11(c *Ctx) int {
 		run.Violation("c11-burst", rp)
 	}
 
+	// 5. annotation sync handlers against element edits: behaviours of Annotation.tla replayed without idling
+	var annNoIdle map[string]interface{}
+	if annPrep != nil {
+		annNoIdle = c11AnnSyncNoIdle(c, run, annPrep)
+		run.Set("annotation_sync_no_idle_replay", annNoIdle)
+	}
+
+	// 6. race detector diagnostics (thorough tier; never a verdict)
+	if c.thorough() && os.Getenv("VERIF_C11_TPLS") == "" {
+		run.Set("race_detector", c11RaceBursts(c, run))
+	}
+
 	// collect the intended-locking results
 	mcWG.Wait()
 	close(mcCh)
@@ -1508,11 +1874,15 @@ func checkC11(c *Ctx) int {
 	for m := range mcCh {
 		states += m.r.Distinct
 		trans += m.r.Generated
-		if m.n < 0 {
-			models = append(models, fmt.Sprintf("locking of today's code, %d concurrent requests, every interleaving of every request tuple of 8 templates: %d distinct states, depth %d, Inv_C11_Serializable/Inv_C12_Unique/locks released/no deadlock hold", -m.n, m.r.Distinct, m.r.Depth))
+		if m.note != "" {
+			models = append(models, fmt.Sprintf(m.note, m.r.Distinct, m.r.Depth))
 			continue
 		}
-		models = append(models, fmt.Sprintf("intended locking, %d concurrent requests, every interleaving of every request tuple of 8 templates: %d distinct states, depth %d, Inv_C11_Serializable/Inv_C12_Unique/locks released/no deadlock hold", m.n, m.r.Distinct, m.r.Depth))
+		if m.n < 0 {
+			models = append(models, fmt.Sprintf("locking of today's code, %d concurrent requests, every interleaving of the request tuples of the templates (template vox: the tuples without an open known finding): %d distinct states, depth %d, Inv_C11_Serializable/Inv_C12_Unique/Inv_C11_IndexMatchesVoxels/locks released/no deadlock hold", -m.n, m.r.Distinct, m.r.Depth))
+			continue
+		}
+		models = append(models, fmt.Sprintf("intended locking, %d concurrent requests, every interleaving of every request tuple of the templates: %d distinct states, depth %d, Inv_C11_Serializable/Inv_C12_Unique/Inv_C11_IndexMatchesVoxels/locks released/no deadlock hold", m.n, m.r.Distinct, m.r.Depth))
 	}
 	sort.Strings(models)
 	states += statesCode
@@ -1520,7 +1890,12 @@ func checkC11(c *Ctx) int {
 
 	run.Set("states", states)
 	run.Set("transitions", trans)
-	run.Set("traces_validated_against_impl", atomic.LoadInt64(&st.replays)+int64(len(bursts)))
+	nTraces := atomic.LoadInt64(&st.replays) + int64(len(bursts))
+	if annNoIdle != nil {
+		nTraces += annNoIdle["behaviours_replayed_without_idling"].(int64)
+	}
+	run.Set("traces_validated_against_impl", nTraces)
+	run.Set("final_states_also_read_through_every_labelmap_endpoint", atomic.LoadInt64(&st.deep))
 	run.Set("models", models)
 	run.Set("request_tuples_2", n2)
 	run.Set("request_tuples_total", len(cases))
@@ -1536,11 +1911,12 @@ func checkC11(c *Ctx) int {
 	run.Set("non_serial_final_states_observed", atomic.LoadInt64(&st.nonSerial))
 	run.Set("request_tuples_model_of_todays_locking_predicts_lost_update", modelUnserial)
 	run.Set("bursts", len(bursts))
+	run.Set("bursts_on_two_open_sibling_versions", twoVersionBursts)
 	run.Set("burst_sizes", burstSizes)
 	run.Set("bursts_all_acknowledged_and_serial", burstAllAck)
 	run.Set("bursts_known_finding", burstKnown)
 	run.Set("replay_wall_s", tReplay)
-	run.Set("rule", "a case is one schedule of one request tuple: TLC enumerates, on the model of today's locking at the grain the gate scheduler controls (context switches at dvid.VerifPoint sites and request entry only), every schedule of every tuple of 2 requests (thorough: plus a seeded sample of triples, <= 40 schedules each) of the templates kv put/delete, annotation post/delete/move, labelmap merge/cleave, newversion/branch, neuronjson update, nextlabel, mutation id, labelmap.ChangeLabelIndex (package-level call); each schedule is forced on the real server and the final state read through the API must be one of the serial outcomes TLC computed from the atomic semantics; plus ungated bursts of 2..8 requests whose responses and final state must equal TLC's outcome for a candidate serial order; distinct_nontrivial = distinct (request tuple, pre-state, schedule) and distinct burst request lists")
+	run.Set("rule", "a case is one schedule of one request tuple: TLC enumerates, on the model of today's locking at the grain the gate scheduler controls (context switches at dvid.VerifPoint sites and request entry only), every schedule of every tuple of 2 requests (thorough: plus a seeded sample of triples, <= 40 schedules each) of the templates kv put/delete, annotation post/delete/move, labelmap merge/cleave, newversion/branch, neuronjson update, nextlabel, mutation id, labelmap.ChangeLabelIndex (package-level call); each schedule is forced on the real server and the final state read through the API must be one of the serial outcomes TLC computed from the atomic semantics; growth templates: mcli (POST merge / cleave || package-level ChangeLabelIndex on the target or merged body), vox (POST raw?mutate=true of one or two blocks, split-supervoxel, merge, cleave, renumber over a 3-block region geometry: stored supervoxel per region, stored body indices, mapping; a matched serial outcome is additionally read through every labelmap endpoint), annsync (POST elements / DELETE element || POST merge / cleave of the synced labelmap, the sync handler scheduled as the asynchronous tail of the label request: block, tag and label element lists, labelsz counts, mapping), wc (3 requests: keyvalue / labelmap / annotation write || POST commit || reader that first reads the commit flag and then the content: whoever saw the version committed must have seen its final content); quick tier: a sample of the schedules of every tuple of the growth templates (most context switches first), thorough: all; behaviours of Annotation.tla (TLC simulation) replayed without idling between operations, final views compared; plus ungated bursts of 2..8 requests whose responses and final state must equal TLC's outcome for a candidate serial order; distinct_nontrivial = distinct (request tuple, pre-state, schedule) and distinct burst request lists")
 	if len(run.KnownSeen()) == 0 {
 		if len(items) > 0 {
 			it := items[0]
@@ -1555,6 +1931,9 @@ func checkC11(c *Ctx) int {
 		"a request that has not reached its next gate within the bounded wait is treated as blocked on a lock; a slow request misjudged as blocked changes the schedule that is actually run but never the verdict (only the final state is judged)",
 		"runs in which a request was refused are outside the property as stated (all acknowledged); they are counted, not judged",
 		"the observation functions (API reads -> abstract state) are a renaming of identifiers; the state of one request tuple lives in a fresh data instance or repo",
+		"goroutines a request leaves behind are attributed to it by their creating goroutine (runtime stack 'created by ... in goroutine N') or by the site they reach (sync handler of a subscriber); a goroutine the scheduler fails to attribute runs ungated (a missed interleaving, never a verdict)",
+		"a non-serial final state is attributed to an open known finding only for the request tuples the finding speaks of, only if the model of today's locking predicts a lost update for the tuple, and (template wc) only if the state is the one the model predicts; everything else is a violation",
+		"templates annsync / vox leave out requests whose sequential meaning is not available to a concurrent client (an element edit that arrives between a label request's acknowledgement and the handling of its sync event; see known_findings.json)",
 	}
 	_ = burstViol
 	fmt.Printf("C11: violations=%d known=%v\n", run.Violations(), run.KnownSeen())
